@@ -764,3 +764,21 @@ def inf_lists(ctx):
             out.append(('x in [%s]' % ', '.join(lst), ' or '.join('x eq %s' % e for e in lst), o))
     return out
 ABSENT_ = ('absent',)
+
+def straddling_strings(ctx):
+    """strings whose LAST character is multi-byte and straddles a round byte limit (64 ... 65536, decimal and binary): a text that is cut
+    at a fixed length lands inside that character with nothing after it.  In comparisons that stay undecided, so that the diagnostic
+    carries the string (as attribute value and as rule literal)"""
+    out = []
+    limits = [64, 100, 128, 255, 256, 500, 512, 1000, 1024, 2000, 2048, 4000, 4096, 8192, 10000, 16384] + ([] if ctx.quick else [32768, 50000, 65536, 100000])
+    for L in limits:
+        for ch in ('é', '€', '\U0001f600'):
+            nb = len(ch.encode('utf-8'))
+            for k in range(1, nb):
+                s_ = 'a' * (L - k) + ch
+                for t in ('x eq 1', 'x lt 1.5', 'x eq 1.0.0', 'x in [1, 2]', 'k eq 1 and x gt 2'):
+                    out.append((t, obj({'x': S(s_), 'k': I(1)}), 'straddling-string'))
+                if L <= 16384:
+                    out.append(('y eq "%s"' % s_, obj({'y': I(1)}), 'straddling-string'))
+                    out.append(('y co "%s" or zz eq "%s"' % (s_, s_), obj({'y': ('b', True)}), 'straddling-string'))
+    return out
